@@ -342,6 +342,26 @@ Disc(st, l) ==
   ELSE IF Ambiguous(st) THEN {Unmodelled(st)}
   ELSE {Ok(Removed(st, {CHOOSE i \in tgt : TRUE}))}
 
+\* --- graph clean-up operations defined through removal ------------------------
+SegLen(st, id) == LET i == CHOOSE i \in DOMAIN st.lines : st.lines[i].rt = "S" /\ st.lines[i].name = id IN
+                  st.lines[i].num[1]
+RECURSIVE SumLens(_, _)
+SumLens(st, S) == IF S = {} THEN 0 ELSE LET x == CHOOSE x \in S : TRUE IN SegLen(st, x) + SumLens(st, S \ {x})
+\* remove_small_components(minlen): every dovetail-connected component whose total
+\* segment length is below minlen is removed (with the dependants of its segments)
+RemoveSmallComponents(st, minlen) ==
+  IF Ambiguous(st) \/ PlaceholderIds(st) # {} \/ VirtLinkKeys(st) # {}
+     \/ \E id \in SegIds(st) : SegLen(st, id) < 0
+    THEN {Unmodelled(st)}
+  ELSE LET small == {c \in Components(st) : SumLens(st, c) < minlen}
+           segs == UNION small IN
+       {Ok(Removed(st, {i \in DOMAIN st.lines : st.lines[i].rt = "S" /\ st.lines[i].name \in segs}))}
+\* remove_self_links(): every dovetail from a segment to itself is removed
+RemoveSelfLinks(st) ==
+  IF Ambiguous(st) \/ PlaceholderIds(st) # {} \/ VirtLinkKeys(st) # {} THEN {Unmodelled(st)}
+  ELSE {Ok(Removed(st, {i \in DOMAIN st.lines :
+            IsDovetail(st.lines[i]) /\ st.lines[i].refs[1].id = st.lines[i].refs[2].id}))}
+
 \* --- rename ----------------------------------------------------------------
 Rename(st, old, new) ==
   LET tgt == IdxNamed(st, old) IN
@@ -401,6 +421,8 @@ Step(st, op) ==
     [] op.k = "settag" -> SetTag(st, op.id, op.l)
     [] op.k = "deltag" -> DelTag(st, op.id, op.l)
     [] op.k = "load"  -> Load(st, op.ls)
+    [] op.k = "rsc" -> RemoveSmallComponents(st, op.n)
+    [] op.k = "rsl" -> RemoveSelfLinks(st)
     [] op.k = "unused" -> {Ok(st)}           \* unused_name(): the document is unchanged, the answer is fresh
     [] op.k = "query" -> {Ok(st)}            \* read-only: the document is unchanged (C10)
     [] op.k = "flush" -> ProcessQueue(st)
